@@ -43,6 +43,16 @@ func NewCanon(tabs *scalatab.Tables, spec *Spec) *Canon {
 	return c
 }
 
+func calleeIdent(call *ast.CallExpr) *ast.Ident {
+	switch f := unparen(call.Fun).(type) {
+	case *ast.Ident:
+		return f
+	case *ast.SelectorExpr:
+		return f.Sel
+	}
+	return nil
+}
+
 // recognise collects sections, archetypes, procedures and operator functions of a generated package.
 func recognise(pk *load.Package, canon *Canon, tabs *scalatab.Tables, fset *token.FileSet) *GoSide {
 	gs := &GoSide{Sections: map[string]*GoSection{}, Archetypes: map[string]*GoArchetype{}, Procs: map[string]*GoProc{}, Ops: map[string]*GoOp{}}
@@ -72,6 +82,58 @@ func recognise(pk *load.Package, canon *Canon, tabs *scalatab.Tables, fset *toke
 		}
 		return out
 	}
+	r.decls = map[*types.Func]*ast.FuncDecl{}
+	for _, f := range pk.Files {
+		for _, d := range f.Decls {
+			if fd, ok := d.(*ast.FuncDecl); ok && fd.Recv == nil {
+				if fn, _ := pk.Info.Defs[fd.Name].(*types.Func); fn != nil {
+					r.decls[fn] = fd
+				}
+			}
+		}
+	}
+	// package-level variables with an initialiser that nothing assigns: constants a maintainer hoisted out of the sections
+	r.consts = map[types.Object]ast.Expr{}
+	for _, f := range pk.Files {
+		for _, d := range f.Decls {
+			gd, ok := d.(*ast.GenDecl)
+			if !ok || gd.Tok != token.VAR {
+				continue
+			}
+			for _, sp := range gd.Specs {
+				vs, ok := sp.(*ast.ValueSpec)
+				if !ok || len(vs.Names) != len(vs.Values) {
+					continue
+				}
+				for i, nm := range vs.Names {
+					if o := pk.Info.Defs[nm]; o != nil {
+						if call, isCall := unparen(vs.Values[i]).(*ast.CallExpr); isCall {
+							if fn, _ := pk.Info.Uses[calleeIdent(call)].(*types.Func); fn != nil && fn.Pkg() != nil && fn.Pkg().Path() == pkgTLA && strings.HasPrefix(fn.Name(), "Make") {
+								r.consts[o] = vs.Values[i]
+							}
+						}
+					}
+				}
+			}
+		}
+	}
+	for _, f := range pk.Files {
+		ast.Inspect(f, func(n ast.Node) bool {
+			switch x := n.(type) {
+			case *ast.AssignStmt:
+				for _, l := range x.Lhs {
+					if id, ok := unparen(l).(*ast.Ident); ok {
+						delete(r.consts, pk.Info.Uses[id])
+					}
+				}
+			case *ast.UnaryExpr:
+				if id, ok := unparen(x.X).(*ast.Ident); ok && x.Op == token.AND {
+					delete(r.consts, pk.Info.Uses[id])
+				}
+			}
+			return true
+		})
+	}
 	for _, f := range pk.Files {
 		// operator functions: func Name(iface distsys.ArchetypeInterface, args ...tla.Value) tla.Value { return e }
 		for _, d := range f.Decls {
@@ -99,14 +161,15 @@ func recognise(pk *load.Package, canon *Canon, tabs *scalatab.Tables, fset *toke
 					}
 				}()
 				r.reset("")
-				if len(fd.Body.List) != 1 {
-					r.bad(fd, "operator body is not a single return")
+				r.body = fd.Body
+				if len(fd.Body.List) == 1 {
+					if rs, ok := fd.Body.List[0].(*ast.ReturnStmt); ok && len(rs.Results) == 1 {
+						op.Stream = r.expr(rs.Results[0])
+						return
+					}
 				}
-				rs, ok := fd.Body.List[0].(*ast.ReturnStmt)
-				if !ok || len(rs.Results) != 1 {
-					r.bad(fd, "operator body is not a single return")
-				}
-				op.Stream = r.expr(rs.Results[0])
+				// a body that is the unwrapped form of the generated closure (IF / CASE / LET written as statements)
+				op.Stream = r.iifeList(fd.Body.List, fd)
 			}()
 			gs.Ops[op.Name] = op
 		}
@@ -281,8 +344,11 @@ func MatchPair(pk *load.Package, tlaPath string, tabs *scalatab.Tables, fset *to
 			want := canon.Stream(s.Body)
 			if eq(want, g.Stream) {
 				add(key, "ok", g.Pos, "%d tokens agree", len(want))
+			} else if nw, ng := NormalizeStream(want), NormalizeStream(g.Stream); eq(nw, ng) {
+				// same section up to where the continuation of a conditional is written and the polarity of its test
+				add(key, "ok", g.Pos, "%d tokens agree (normal form: continuations pushed into the arms, tests un-negated)", len(nw))
 			} else {
-				add(key, "bad", g.Pos, "the generated critical section differs from the spec's label %s: %s", s.Label, diff(want, g.Stream))
+				add(key, "bad", g.Pos, "the generated critical section differs from the spec's label %s: %s", s.Label, diff(nw, ng))
 			}
 		}
 		full := u.Name + "." + synthetic
